@@ -273,6 +273,9 @@ func (b *BFS) Run() *BFSResult {
 			for i, r := range run(reqs) {
 				path := confPaths[off+i]
 				if r.Err != "" || r.Died {
+					if d := os.Getenv("VERIF_DEBUG_DIR"); d != "" { // debugging aid: the whole stderr of the dead worker
+						os.WriteFile(filepath.Join(d, "dead-worker.log"), []byte(r.Log), 0644)
+					}
 					res.HarnessErr = fmt.Sprintf("conformance replay of %v failed: %s %s", path, r.Err, tail(r.Log, 2000))
 					return res
 				}
